@@ -11,6 +11,7 @@ Core Lean only: the driver links this file.
 -/
 import CtyModel.Stdlib.Funcs
 import CtyModel.Stdlib.Number
+import CtyModel.Stdlib.Glue
 import CtyModel.Stdlib.Specs
 namespace CtyModel
 namespace D11b
@@ -64,10 +65,47 @@ def table : List (String × String × String × Func) :=
 def byName (name : String) : Option Func :=
   (table.find? fun e => e.1 == name).map (·.2.2.2)
 
+
+/-! ### the string functions that are `cty.StringVal ∘ library` (string.go, string_replace.go): the
+Go standard library, x/text and textseg are the parameter `L : StdNum.Lib` (Stdlib/Glue.lean) -/
+
+def pStr : Fn.Param := { ty := .string }
+def pStrD : Fn.Param := { ty := .string, allowDynamic := true }
+def spec3 (p q r : Fn.Param) : Fn.Spec := { params := [p, q, r], refine := some refineNN }
+
+/-- (harness name, Go variable, declared static type, model for a given library) -/
+def glueTable : List (String × String × String × (StdNum.Lib → Func)) :=
+  [("upper", "UpperFunc", "cty.String", fun L => mk (spec1 pStrD) .string (StdNum.upperImpl L)),
+   ("lower", "LowerFunc", "cty.String", fun L => mk (spec1 pStrD) .string (StdNum.lowerImpl L)),
+   ("strreverse", "ReverseFunc", "cty.String", fun L => mk (spec1 pStrD) .string (StdNum.reverseImpl L.nfc L.clusters)),
+   ("title", "TitleFunc", "cty.String", fun L => mk (spec1 pStr) .string (StdNum.titleImpl L)),
+   ("trimspace", "TrimSpaceFunc", "cty.String", fun L => mk (spec1 pStr) .string (StdNum.trimSpaceImpl L)),
+   ("chomp", "ChompFunc", "cty.String", fun L => mk (spec1 pStr) .string (StdNum.chompImpl L.nfc)),
+   ("trim", "TrimFunc", "cty.String", fun L => mk (spec2 pStr pStr) .string (StdNum.trimImpl L)),
+   ("trimprefix", "TrimPrefixFunc", "cty.String", fun L => mk (spec2 pStr pStr) .string (StdNum.trimPrefixImpl L)),
+   ("trimsuffix", "TrimSuffixFunc", "cty.String", fun L => mk (spec2 pStr pStr) .string (StdNum.trimSuffixImpl L)),
+   ("replace", "ReplaceFunc", "cty.String", fun L => mk (spec3 pStr pStr pStr) .string (StdNum.replaceImpl L)),
+   ("regexreplace", "RegexReplaceFunc", "cty.String", fun L => mk (spec3 pStr pStr pStr) .string (StdNum.regexReplaceImpl L)),
+   ("split", "SplitFunc", "cty.List(cty.String)", fun L => mk (spec2 pStr pStr) (.list .string) (StdNum.splitImpl L)),
+   ("indent", "IndentFunc", "cty.String", fun L => mk (spec2 pNum pStr) .string (StdNum.indentImpl L.nfc)),
+   ("substr", "SubstrFunc", "cty.String", fun L => mk (spec3 pStrD pNumD pNumD) .string (StdNum.substrImpl L.nfc L.clusters))]
+
+def glueByName (name : String) : Option (StdNum.Lib → Func) :=
+  (glueTable.find? fun e => e.1 == name).map (·.2.2.2)
+
+/-- a library to instantiate the table with when only the specs are looked at -/
+def idLib : StdNum.Lib :=
+  { nfc := id, clusters := fun s => s.toList.map (·.toString), toUpper := id, toLower := id, title := id, trimSpace := id,
+    trim := fun s _ => s, trimPrefix := fun s _ => s, trimSuffix := fun s _ => s, replaceAll := fun s _ _ => s,
+    split := fun s _ => [s], regexCompile := fun _ => none, regexReplaceAll := fun _ s _ => s, regexFind := fun _ _ => none,
+    regexFindAll := fun _ _ => [], parseTimestamp := fun _ => none, parseDuration := fun _ => false, timeAdd := fun s _ => s,
+    csvHeader := fun _ => none, csvAll := fun _ _ => ⟨[], false⟩, fmtInt := fun _ _ => "", fmtFloat := fun _ _ => "",
+    textG := fun _ => "", jsonStr := id }
+
 /-- the collection functions proved total end to end, by the names of `Stdlib.byName`, with their Go variables -/
 def collTable : List (String × String) :=
   [("hasindex", "HasIndexFunc"), ("keys", "KeysFunc"), ("values", "ValuesFunc"), ("reverse", "ReverseListFunc"),
-   ("coalescelist", "CoalesceListFunc"), ("compact", "CompactFunc")]
+   ("coalescelist", "CoalesceListFunc"), ("compact", "CompactFunc"), ("range", "RangeFunc")]
 
 /-- one parameter declaration as comparable data -/
 def paramKey (p : Fn.Param) : Ty × List Bool := (p.ty, [p.allowNull, p.allowUnknown, p.allowDynamic, p.allowMarked])
